@@ -21,10 +21,11 @@ MANIFEST = {
 }
 
 RULE = ("placements: every documented placement (22) x every documented receiver form and every non-receiver (17) x emit/emit_to; "
+        "fnshapes: enclosing function with no parameters / only non-handle parameters / only the handle / a local let named app, window or webview (untyped, mut, typed) x receivers that fit (static method chain, clone of it, call().clone(), field of a global, field of a call result, plain call and the static itself which must not count) x attributes/visibility/async/unsafe/const/command-or-not (29 combinations) x rotating placement x emit/emit_to; "
         "payloads: every payload form (27) and every leaf/depth-1 type (36) x param/let/let-without-init/alias x {x,&x,x.clone(),&x.clone(),&&x}, "
         "every untyped initialiser form x fresh/shadowing, scoping cases; names: every name of length <= 2 over {a,B,1,_,-,:,/}, every pair of "
         "distinct names of length <= 2 over {a,A,_,-}; repeats across sites/functions/files, no-event and no-command projects; "
-        "random structured projects (1-3 files, 1-3 functions, 1-6 emit sites, nesting depth <= 3; 70% generated outside every recorded class); "
+        "random structured projects (1-3 files, 1-3 functions each with a random shape: std parameters / none / non-handle only / handle only, handle from a static or a local let, random attributes, visibility, qualifiers, return type, command or not; 1-6 emit sites, nesting depth <= 3; 70% generated outside every recorded class); "
         "a malformed/out-of-domain stream (emit at undocumented positions, heuristic receivers, names outside the alphabet, non-top-level functions) "
         "where only the correspondence is judged. Non-trivial = at least one emit call in the sources; distinct = distinct cases.")
 TRUSTED = ["tools/props/c12_gen.py renders one case both to Rust source and to the model's s-expression (trusted printer)",
@@ -170,6 +171,7 @@ def run(rep):
     thorough = rep.tier == "thorough"
     streams = [("corpus", corpus_cases(), True),
                ("placements", G.enum_placements(), True),
+               ("fnshapes", G.enum_fnshapes(), True),
                ("payloads", G.enum_payloads(), True),
                ("names", G.enum_names(), True),
                ("repeats", G.enum_repeats(), True)]
